@@ -291,16 +291,25 @@ def fn_model(rec, sh, cplx):
 # non-linear maps (real data only)
 
 
-def nl_operator(rec, n):
-    """C(x) = M x + q*(P x)^2  as a scico Operator"""
+def _cm(rec, k):
+    """complex (or real) numpy array of a recipe entry k with optional imaginary part k+'i'"""
+    a = np.asarray(rec[k], dtype=np.float64)
+    if rec.get(k + "i") is not None:
+        a = a + 1j * np.asarray(rec[k + "i"], dtype=np.float64)
+    return a
+
+
+def nl_operator(rec, n, cplx=False):
+    """C(x) = M x + q*(P x)^2  as a scico Operator (holomorphic, so complex data is allowed)"""
     import scico.numpy as snp
     from scico.operator import Operator
 
-    M = snp.array(np.asarray(rec["M"], dtype=np.float64))
-    P = snp.array(np.asarray(rec["P"], dtype=np.float64))
-    q = snp.array(np.asarray(rec["q"], dtype=np.float64))
+    dt = dtype_of(cplx)
+    M = snp.array(_cm(rec, "M").astype(dt))
+    P = snp.array(_cm(rec, "P").astype(dt))
+    q = snp.array(_cm(rec, "q").astype(dt))
     return Operator(input_shape=(n,), output_shape=(M.shape[0],), eval_fn=lambda x: M @ x + q * (P @ x) ** 2,
-                    input_dtype=np.float64, output_dtype=np.float64)
+                    input_dtype=dt, output_dtype=dt)
 
 
 def nl_function(rec):
@@ -406,6 +415,10 @@ class Built:
             sub = LinearSubproblemSolver(cg_kwargs={"tol": 1e-15, "maxiter": 400}, cg_function="jax")
         elif kind == "matrix":
             sub = MatrixSubproblemSolver()
+        elif kind == "circ":
+            from scico.optimize.admm import CircularConvolveSolver
+
+            sub = CircularConvolveSolver(ndims=len(xs))
         elif kind == "generic":
             sub = GenericSubproblemSolver(minimize_kwargs={"options": {"maxiter": 500, "gtol": 1e-12}})
         else:
@@ -489,9 +502,10 @@ class Built:
         r, cx, xs = self.recipe, self.cplx, self.xshape
         if r.get("nl") is not None:
             nl = r["nl"]
-            C = nl_operator(nl, size_of(xs))
+            C = nl_operator(nl, size_of(xs), cx)
             zsh = (len(nl["M"]),)
-            Cm = {"M": jmat(nl["M"]), "q": fs2b(nl["q"]), "P": jmat(nl["P"])}
+            Cm = {"M": jmat(realify_mat(_cm(nl, "M"), cx)), "q": fs2b(realify(_cm(nl, "q"), cx)),
+                  "P": jmat(realify_mat(_cm(nl, "P"), cx)), "cplx": cx}
             linear = False
         else:
             C = op_scico(r["C"], xs, cx)
@@ -764,8 +778,8 @@ def _maybe(rng, v, p_none=0.3):
 def _gen_admm(rng, cplx, edge):
     xs = gen_xshape(rng)
     N = int(rng.integers(1, 4))
-    solver = _pick(rng, ["linear", "linear", "matrix", "linear-jax"])
-    if is_block(xs) or len(xs) == 2:
+    solver = _pick(rng, ["linear", "linear", "matrix", "linear-jax", "circ"])
+    if is_block(xs) or (len(xs) == 2 and solver != "circ"):
         solver = "linear"
     Cs = []
     mkinds = _pick(rng, [["mat"], ["mat"], ["id", "diag", "sid"]])
@@ -774,6 +788,10 @@ def _gen_admm(rng, cplx, edge):
             # MatrixSubproblemSolver: all-Diagonal or all-MatrixOperator constraint lists (f=None and Diagonal f.A work
             # since de41369; a mixture of the two kinds is still rejected by MatrixATADSolver - C10 territory)
             Cs.append(gen_op(rng, xs, cplx, False, mkinds))
+        elif solver == "circ":
+            # CircularConvolveSolver: shift-invariant constraints only
+            Cs.append(_pick(rng, [{"t": "id"}, {"t": "sid", "s": _pick(rng, [0.5, 2.0, -1.0])},
+                                  {"t": "fd", "axes": 0 if len(xs) == 1 else None, "circular": True, "append": None}]))
         else:
             Cs.append(gen_op(rng, xs, cplx))
     # make the x-update well posed: an identity-like constraint or a loss with identity forward operator
@@ -793,6 +811,9 @@ def _gen_admm(rng, cplx, edge):
             f = {"k": "sqloss", "s": _pick(rng, [0.5, 1.0, 2.0]), "A": Arec, "yshape": [m], "y": rand_value(rng, (m,), cplx)}
             if rng.integers(0, 3) == 0:
                 f["W"] = (np.abs(dy(rng, (m,), 2, 2.0)) + 0.25).tolist()
+    elif solver == "circ":
+        f = _maybe(rng, {"k": "sqloss", "s": _pick(rng, [0.5, 1.0, 2.0, 0.25]), "A": None, "yshape": list(xs),
+                         "y": rand_value(rng, xs, cplx)}, 0.3)
     else:
         f = _maybe(rng, gen_loss(rng, xs, cplx, A="id"), 0.35)
     wellposed = (f is not None and (f.get("A") is None or (f["A"]["t"] == "diag" and all(abs(d) == 1.0 for d in f["A"]["d"]))) and (f.get("W") is None or min(f["W"]) > 0))
@@ -881,13 +902,17 @@ def _gen_nlpadmm(rng, cplx, edge):
 
 
 def _gen_pdhg(rng, cplx, edge):
-    nl = (not cplx) and rng.integers(0, 3) == 0
+    nl = rng.integers(0, 3) == 0
     if nl:
+        cplx = bool(rng.integers(0, 2))  # the conjugation of the Jacobian product matters only for complex data
         n, m = int(rng.integers(2, 5)), int(rng.integers(2, 5))
         xs = [n]
         rec = {"M": dy(rng, (m, n), 2, 1.5).tolist(), "P": dy(rng, (m, n), 2, 1.0).tolist(), "q": dy(rng, (m,), 2, 1.0).tolist()}
+        if cplx:
+            rec.update({"Mi": dy(rng, (m, n), 2, 1.5).tolist(), "Pi": dy(rng, (m, n), 2, 1.0).tolist(),
+                        "qi": dy(rng, (m,), 2, 1.0).tolist()})
         zsh = (m,)
-        c2 = max(float(np.linalg.norm(np.asarray(rec["M"]), 2) ** 2), 0.25) * 4
+        c2 = max(float(np.linalg.norm(_cm(rec, "M"), 2) ** 2), 0.25) * 4
         C = None
     else:
         xs = gen_xshape(rng)
@@ -912,7 +937,7 @@ def _gen_policy(rng, accel):
     if c < 4:
         return {"kind": "base", "real": True}
     kinds = ["base", "bb", "adaptiveBB", "lineSearch"] + (["robust"] if accel else [])
-    return {"kind": _pick(rng, kinds), "real": False, "a": _pick(rng, [1.0, 0.5, 0.0]), "b": _pick(rng, [0.0, 0.125, 0.25]),
+    return {"kind": _pick(rng, kinds), "real": False, "a": _pick(rng, [1.0, 0.5, 0.0]), "b": _pick(rng, [0.0625, 0.125, 0.25]),
             "c": _pick(rng, [0.5, 1.0, 2.0]), "zc": _pick(rng, [1.0, 0.5, 0.75]), "zd": _pick(rng, [0.0, 0.25, 0.5])}
 
 
